@@ -222,7 +222,7 @@ func TestVerif_C14Pipe(t *testing.T) {
 	// also a job of C13 (bad frames through the real socket loop: rejected, nothing of them
 	// stored, recording ended, processing resumes with the next frame, valid frames exact)
 	prop := vEnv("VERIF_PROP", "C14")
-	if prop != "C13" {
+	if prop != "C13" && prop != "C08" {
 		prop = "C14"
 	}
 	c := vStart(t, prop, "TestVerif_C14Pipe")
